@@ -117,7 +117,7 @@ struct Model {
 //     swapped contents.   Memory safety of all of this is ASan's / memcheck's business.
 struct Look { virtual bool Find(int t, uint32 kid, uint32 & v, uint64_t & id) = 0; virtual ~Look() {} };
 template<class K, class V> struct Trk {
-   HashtableIterator<K, V> * it; bool back; int t; bool reordered, detached, curGone; uint64_t curId; long yields; bool mutated;
+   HashtableIterator<K, V> * it; bool back; int t; bool reordered, detached, curGone, curRemoved; uint64_t curId; long yields; bool mutated;
    std::unordered_set<uint64_t> yielded, must;
 };
 template<class K, class V> struct TrkSet {
@@ -131,12 +131,12 @@ template<class K, class V> struct TrkSet {
       if (!look->Find(x.t, kid, mv, id)) { Fail("iter|yielded-key-not-in-table", vh::fmt("iterator (%s) yielded key %u, which the model does not hold", x.back ? "backward" : "forward", kid)); return; }
       if (VT<V>::Val(x.it->GetValue()) != mv) { Fail("iter|yielded-stale-value", vh::fmt("iterator yielded key %u with value %u, model has %u", kid, VT<V>::Val(x.it->GetValue()), mv)); return; }
       if (!x.reordered && x.yielded.count(id)) { Fail("iter|entry-yielded-twice", vh::fmt("iterator (%s) yielded entry of key %u (generation id %llu) twice in a traversal without reordering", x.back ? "backward" : "forward", kid, (unsigned long long)id)); return; }
-      x.yielded.insert(id); x.curId = id; x.curGone = false; x.yields++;
+      x.yielded.insert(id); x.curId = id; x.curGone = x.curRemoved = false; x.yields++;
    }
    // ahead = ids of the entries from the start position onwards in the iterator's direction (start first)
    void Begin(IT * it, bool back, int t, const std::vector<uint64_t> & ahead, uint32 expectKid)
    {
-      T * x = new T; x->it = it; x->back = back; x->t = t; x->reordered = x->detached = x->curGone = x->mutated = false; x->curId = 0; x->yields = 0;
+      T * x = new T; x->it = it; x->back = back; x->t = t; x->reordered = x->detached = x->curGone = x->curRemoved = x->mutated = false; x->curId = 0; x->yields = 0;
       for (size_t i = 0; i < ahead.size(); i++) x->must.insert(ahead[i]);
       v.push_back(x); vh::stat("iter_created");
       if (it->HasData() != (expectKid != 0)) { Fail("iter|start", vh::fmt("new iterator HasData()=%d, expected start key %u", (int)it->HasData(), expectKid)); return; }
@@ -163,9 +163,47 @@ template<class K, class V> struct TrkSet {
          if (x.it->HasData()) Yield(x); else { Finish(i); return; }
       }
    }
+   // ---- copies, assignments and swaps between live iterators, in whatever state they are (fresh, mid-table, holding the private
+   // copy of a removed/moved entry, detached by Clear/destruction, ended, default-constructed; either direction; either table).
+   // Documented as value semantics: the target continues exactly like the source from the source's position (so it inherits the
+   // source's traversal bookkeeping for rules (a)-(d)), the source is unchanged; whatever the target held before is gone.
+   struct Shown { bool has; uint32 k, v; bool operator==(const Shown & o) const { return has == o.has && (!has || (k == o.k && v == o.v)); } std::string str() const { return has ? vh::fmt("key %u value %u", k, v) : std::string("no data"); } };
+   static Shown Show(const IT & it) { Shown s; s.has = it.HasData(); s.k = s.has ? KT<K>::Id(it.GetKey()) : 0; s.v = s.has ? VT<V>::Val(it.GetValue()) : 0; return s; }
+   static void Inherit(T & d, const T & s) { IT * keep = d.it; d = s; d.it = keep; }
+   void StateStats(const char * role, const T & x) { std::string r(role); if (x.detached) vh::stat("iter_assign_" + r + "_detached_by_clear_or_destruction"); else if (x.curRemoved) vh::stat("iter_assign_" + r + "_holding_scratch_copy"); else if (x.curGone) vh::stat("iter_assign_" + r + "_entry_was_moved"); else if (x.yields <= 1) vh::stat("iter_assign_" + r + "_fresh"); else vh::stat("iter_assign_" + r + "_mid_table"); if (x.back) vh::stat("iter_assign_" + r + "_backwards"); }
+   void Expect(const char * what, const IT & it, const Shown & want) { Shown got = Show(it); if (!(got == want)) Fail("iter|assigned-iterator-differs-from-source", std::string(what) + " presents " + got.str() + ", expected " + want.str()); }
+   void Transfer(size_t cap)
+   {
+      if (v.empty() || caseBad) return;
+      int kind = R(10); size_t si = R((uint32)v.size()), di = R((uint32)v.size()); if (v.size() >= 2) while (di == si) di = R((uint32)v.size());
+      if (v.size() < 2 && (kind <= 4 || kind == 9)) kind = 5 + R(3);
+      T & s = *v[si]; const Shown sb = Show(*s.it);
+      if (kind <= 3) {   // copy-assignment between two live iterators
+         T & d = *v[di]; OP("IterCopyAssign iter%zu = iter%zu (target: %s%s, source: %s%s)", di, si, d.detached ? "detached" : d.curRemoved ? "scratch" : "live", d.back ? " backward" : "", s.detached ? "detached" : s.curRemoved ? "scratch" : "live", s.back ? " backward" : "");
+         vh::stat("iter_assign_copy"); StateStats("target", d); StateStats("source", s); if (d.t != s.t) vh::stat("iter_assign_from_other_table"); if (d.back != s.back) vh::stat("iter_assign_direction_change");
+         *d.it = *s.it; Expect("the target of a copy-assignment", *d.it, sb); Expect("the source of a copy-assignment", *s.it, sb); if (d.it->IsBackwards() != s.back) Fail("iter|assigned-iterator-differs-from-source", "direction flag not copied");
+         Inherit(d, s); vh::stat("iter_traversals_abandoned_by_assignment");
+      } else if (kind == 4) {   // move-assignment: the source is only good for destruction afterwards
+         T & d = *v[di]; OP("IterMoveAssign iter%zu = move(iter%zu)", di, si); vh::stat("iter_assign_move"); StateStats("target", d); StateStats("source", s); if (d.t != s.t) vh::stat("iter_assign_from_other_table");
+         *d.it = std::move(*s.it); Expect("the target of a move-assignment", *d.it, sb); Inherit(d, s); delete s.it; delete v[si]; v.erase(v.begin() + si); vh::stat("iter_traversals_abandoned_by_assignment");
+      } else if (kind == 5) {   // copy- or move-construction
+         bool mv = R(3) == 0; OP(mv ? "IterMoveConstruct from iter%zu" : "IterCopyConstruct from iter%zu", si); vh::stat(mv ? "iter_move_construct" : "iter_copy_construct"); StateStats("source", s);
+         if (mv) { IT * n = new IT(std::move(*s.it)); Expect("a move-constructed iterator", *n, sb); delete s.it; s.it = n; }
+         else if (v.size() < cap) { IT * n = new IT(*s.it); Expect("a copy-constructed iterator", *n, sb); Expect("the source of a copy-construction", *s.it, sb); T * x = new T(s); x->it = n; v.push_back(x); }
+      } else if (kind == 6) { OP("IterSelfAssign iter%zu", si); vh::stat("iter_self_assign"); IT & self = *s.it; *s.it = self; Expect("a self-assigned iterator", *s.it, sb); }
+      else if (kind == 7 || kind == 8) {   // an ended (still registered or not) or default-constructed iterator as source or as target
+         bool useZombie = !zombies.empty() && R(3); bool asTarget = R(2);
+         if (asTarget && v.size() < cap) { IT * z; if (useZombie) { z = zombies.back(); zombies.pop_back(); } else z = new IT(); OP("IterCopyAssign %s = iter%zu", useZombie ? "ended" : "default-constructed", si); vh::stat("iter_assign_target_at_end_or_default"); StateStats("source", s); *z = *s.it; Expect("an ended/default iterator after copy-assignment", *z, sb); Expect("the source of a copy-assignment", *s.it, sb); T * x = new T(s); x->it = z; v.push_back(x); }
+         else if (!asTarget) { IT dflt; IT & src = useZombie ? *zombies[R((uint32)zombies.size())] : dflt; OP("IterCopyAssign iter%zu = %s", si, useZombie ? "ended" : "default-constructed"); vh::stat("iter_assign_source_at_end_or_default"); StateStats("target", s); *s.it = src; Shown none; none.has = false; none.k = none.v = 0; Expect("an iterator assigned from an ended/default one", *s.it, none);
+            (*s.it)++; Expect("an iterator assigned from an ended/default one, advanced", *s.it, none); if (zombies.size() < 4) zombies.push_back(s.it); else delete s.it; delete v[si]; v.erase(v.begin() + si); vh::stat("iter_traversals_abandoned_by_assignment"); }
+      } else {   // SwapContents between two iterators: each continues the other's traversal
+         T & d = *v[di]; const Shown db = Show(*d.it); OP("IterSwapContents iter%zu iter%zu", di, si); vh::stat("iter_swap_contents"); if (d.t != s.t) vh::stat("iter_assign_from_other_table"); StateStats("target", d); StateStats("source", s);
+         d.it->SwapContents(*s.it); std::swap(d.it, s.it); Expect("an iterator after SwapContents", *s.it, sb); Expect("the other iterator after SwapContents", *d.it, db); if (s.it->IsBackwards() != s.back || d.it->IsBackwards() != d.back) Fail("iter|assigned-iterator-differs-from-source", "direction flags not swapped");
+      }
+   }
    void Touch() { for (size_t i = 0; i < v.size(); i++) if (v[i]->it->HasData()) { (void)KT<K>::Id(v[i]->it->GetKey()); (void)VT<V>::Val(v[i]->it->GetValue()); } }
    void NoteMutation(int t) { for (size_t i = 0; i < v.size(); i++) if (v[i]->t == t) v[i]->mutated = true; }
-   void NoteRemoved(int t, uint64_t id) { for (size_t i = 0; i < v.size(); i++) if (v[i]->t == t) { v[i]->must.erase(id); v[i]->mutated = true; if (v[i]->curId == id) v[i]->curGone = true; } }
+   void NoteRemoved(int t, uint64_t id) { for (size_t i = 0; i < v.size(); i++) if (v[i]->t == t) { v[i]->must.erase(id); v[i]->mutated = true; if (v[i]->curId == id) v[i]->curGone = v[i]->curRemoved = true; } }
    void NoteReorder(int t) { for (size_t i = 0; i < v.size(); i++) if (v[i]->t == t) { v[i]->reordered = true; v[i]->curGone = true; } }
    void NoteDetach(int t) { for (size_t i = 0; i < v.size(); i++) if (v[i]->t == t) { v[i]->detached = true; v[i]->must.clear(); } }
    void NoteSwap() { for (size_t i = 0; i < v.size(); i++) v[i]->t ^= 1; }
@@ -180,7 +218,7 @@ enum { O_PUT, O_PUTPREV, O_REMOVE, O_REMOVEOUT, O_REMOVEFIRST, O_REMOVELAST, O_M
        O_ASSIGN, O_COPYFROM, O_MOVERT, O_SWAP, O_DESTROY, O_ENDS,
        O_PUTFRONT, O_PUTBACK, O_PUTBEFORE, O_PUTBEHIND, O_INDEX, O_NEIGHBOUR, O_VALUEQ, O_INTERSECT, O_REMOVETABLE, O_MOVETOTABLE,
        O_COPYTOTABLE, O_SWAPWITHTABLE, O_SETPRED, O_WBEPUT, O_WBEREMOVE, O_ISEQUAL, O_WITHDEFAULT, O_GETORPUT, O_PUTMISC, O_INVERT,
-       O_LOCATED, O_PUTOWN, O_EXACTFILL, O_COPYITER, O_UTRAFFIC, NUM_OPS };
+       O_LOCATED, O_PUTOWN, O_EXACTFILL, O_COPYITER, O_UTRAFFIC, O_ITERXFER, NUM_OPS };
 enum { M_OPS, M_SURFACE, M_B256, M_B65536 };
 
 // value-type specific extras (inverted table, histogram, hash code need a hashable value type)
@@ -341,6 +379,7 @@ template<class K, class V> struct Case : public Look {
          const K * pk = C.GetKey(kk); if ((pk != NULL) != h || (pk && KI(*pk) != k)) Fail("", "GetKey(lookup)"); K ok = KK(0); r = C.GetKey(kk, ok); if (r.IsOK() != h || (h && KI(ok) != k)) Fail("", "GetKey(lookup, ret)"); } break;
       case O_NEWITER: if (ts.v.size() < maxIters) NewIter(R(5) == 0 ? b : a); break;
       case O_COPYITER: if (ts.v.size() < maxIters) CopyIter(); break;
+      case O_ITERXFER: ts.Transfer(maxIters + 2); break;
       case O_ADVANCE: if (ts.v.size()) { size_t i = R((uint32)ts.v.size()); uint32 pop = (uint32)mod[ts.v[i]->t].size(); uint32 steps = big ? 1 + R(pop / 3 + 2) : (pop > 60 ? 1 + R(pop / 4) : 1 + R(3)); OP("Advance iter%zu x%u", i, steps); ts.Advance(i, steps); } break;
       case O_DROPITER: if (ts.v.size() > 1 && R(3) == 0) { size_t i = R((uint32)ts.v.size()); OP("DropIter iter%zu", i); delete ts.v[i]->it; delete ts.v[i]; ts.v.erase(ts.v.begin() + i); vh::stat("iter_dropped_midway"); } break;
       case O_GETMOVE: { if (!hk && sz && R(4)) { k = kOld(a); fk = M.find(k); } bool h = fk != M.l.end(); bool front = R(2); int st = R(2); OP(front ? "GetAndMoveToFront t%d %u" : "GetAndMoveToBack t%d %u", a, k);
@@ -457,12 +496,12 @@ template<class K, class V> struct Case : public Look {
       int w[NUM_OPS]; for (int i = 0; i < NUM_OPS; i++) w[i] = 0;
       uint32 nops, steerPct; maxIters = 1 + R(6);
       if (md == M_OPS) { ks = R(4) == 0 ? 12 + R(12) : (R(5) == 0 ? 300 : 60); vr = 1000; nops = 300 + R(700); steerPct = 30;
-         static const int ww[][2] = {{O_PUT,10},{O_PUTPREV,2},{O_REMOVE,7},{O_REMOVEOUT,2},{O_REMOVEFIRST,2},{O_REMOVELAST,2},{O_MTF,2},{O_MTB,2},{O_MBEFORE,2},{O_MBEHIND,2},{O_MPOS,2},{O_PUTPOS,2},{O_SORTKEY,1},{O_SORTVAL,1},{O_ENSURE,3},{O_SHRINK,2},{O_CANPUT,1},{O_CLEAR,1},{O_GET,3},{O_NEWITER,8},{O_ADVANCE,22},{O_DROPITER,1},{O_GETMOVE,1},{O_COPYCMP,1},{O_ASSIGN,1},{O_COPYFROM,1},{O_MOVERT,1},{O_SWAP,1},{O_DESTROY,1},{O_ENDS,1},{O_PUTFRONT,1},{O_PUTBACK,1},{O_PUTBEFORE,1},{O_PUTBEHIND,1},{O_INTERSECT,1},{O_REMOVETABLE,1},{O_MOVETOTABLE,1},{O_SWAPWITHTABLE,1},{O_WITHDEFAULT,1},{O_GETORPUT,1},{O_PUTMISC,1},{O_PUTOWN,2},{O_COPYITER,2},{O_UTRAFFIC,3}};
+         static const int ww[][2] = {{O_PUT,10},{O_PUTPREV,2},{O_REMOVE,7},{O_REMOVEOUT,2},{O_REMOVEFIRST,2},{O_REMOVELAST,2},{O_MTF,2},{O_MTB,2},{O_MBEFORE,2},{O_MBEHIND,2},{O_MPOS,2},{O_PUTPOS,2},{O_SORTKEY,1},{O_SORTVAL,1},{O_ENSURE,3},{O_SHRINK,2},{O_CANPUT,1},{O_CLEAR,1},{O_GET,3},{O_NEWITER,8},{O_ADVANCE,22},{O_DROPITER,1},{O_GETMOVE,1},{O_COPYCMP,1},{O_ASSIGN,1},{O_COPYFROM,1},{O_MOVERT,1},{O_SWAP,1},{O_DESTROY,1},{O_ENDS,1},{O_PUTFRONT,1},{O_PUTBACK,1},{O_PUTBEFORE,1},{O_PUTBEHIND,1},{O_INTERSECT,1},{O_REMOVETABLE,1},{O_MOVETOTABLE,1},{O_SWAPWITHTABLE,1},{O_WITHDEFAULT,1},{O_GETORPUT,1},{O_PUTMISC,1},{O_PUTOWN,2},{O_COPYITER,2},{O_UTRAFFIC,3},{O_ITERXFER,7}};
          for (size_t i = 0; i < sizeof(ww) / sizeof(ww[0]); i++) w[ww[i][0]] = ww[i][1]; }
       else if (md == M_SURFACE) { ks = R(3) == 0 ? 12 : 24; vr = 6; nops = 300 + R(500); steerPct = 10; if (maxIters > 3) maxIters = 3;
-         for (int i = 0; i < NUM_OPS; i++) w[i] = (i >= O_PUTFRONT) ? 4 : 1; w[O_PUT] = 8; w[O_REMOVE] = 5; w[O_UTRAFFIC] = 8; w[O_ADVANCE] = 8; w[O_NEWITER] = 3; w[O_EXACTFILL] = 0; w[O_CLEAR] = 1; w[O_DESTROY] = 1; w[O_SETPRED] = 5; w[O_WBEPUT] = 6; w[O_WBEREMOVE] = 5; }
+         for (int i = 0; i < NUM_OPS; i++) w[i] = (i >= O_PUTFRONT) ? 4 : 1; w[O_PUT] = 8; w[O_REMOVE] = 5; w[O_UTRAFFIC] = 8; w[O_ADVANCE] = 8; w[O_ITERXFER] = 3; w[O_NEWITER] = 3; w[O_EXACTFILL] = 0; w[O_CLEAR] = 1; w[O_DESTROY] = 1; w[O_SETPRED] = 5; w[O_WBEPUT] = 6; w[O_WBEREMOVE] = 5; }
       else { center = (md == M_B65536 ? 65534 : 254) + R(4); ks = 0; vr = 1000; nops = big ? 500 + R(300) : 1200 + R(800); steerPct = 55;
-         static const int ww[][2] = {{O_PUT,10},{O_PUTPREV,1},{O_REMOVE,8},{O_REMOVEOUT,1},{O_REMOVEFIRST,3},{O_REMOVELAST,3},{O_MTF,3},{O_MTB,3},{O_MBEFORE,1},{O_MBEHIND,1},{O_GET,3},{O_NEWITER,4},{O_ADVANCE,14},{O_DROPITER,1},{O_GETMOVE,1},{O_SWAP,1},{O_MOVERT,1},{O_ENDS,1},{O_PUTFRONT,1},{O_PUTBACK,1},{O_PUTBEFORE,1},{O_PUTBEHIND,1},{O_NEIGHBOUR,1},{O_WITHDEFAULT,1},{O_GETORPUT,1},{O_PUTMISC,1},{O_PUTOWN,2},{O_COPYITER,1},{O_LOCATED,1}};
+         static const int ww[][2] = {{O_PUT,10},{O_PUTPREV,1},{O_REMOVE,8},{O_REMOVEOUT,1},{O_REMOVEFIRST,3},{O_REMOVELAST,3},{O_MTF,3},{O_MTB,3},{O_MBEFORE,1},{O_MBEHIND,1},{O_GET,3},{O_NEWITER,4},{O_ADVANCE,14},{O_DROPITER,1},{O_GETMOVE,1},{O_SWAP,1},{O_MOVERT,1},{O_ENDS,1},{O_PUTFRONT,1},{O_PUTBACK,1},{O_PUTBEFORE,1},{O_PUTBEHIND,1},{O_NEIGHBOUR,1},{O_WITHDEFAULT,1},{O_GETORPUT,1},{O_PUTMISC,1},{O_PUTOWN,2},{O_COPYITER,1},{O_LOCATED,1},{O_ITERXFER,3}};
          for (size_t i = 0; i < sizeof(ww) / sizeof(ww[0]); i++) w[ww[i][0]] = ww[i][1];
          if (big) { w[O_ENSURE] = 1; w[O_SHRINK] = 1; w[O_EXACTFILL] = 1; w[O_COPYCMP] = 1; }
          else { w[O_ENSURE] = 4; w[O_SHRINK] = 4; w[O_EXACTFILL] = 3; w[O_COPYCMP] = 1; w[O_MPOS] = 1; w[O_PUTPOS] = 1; w[O_SORTKEY] = 1; w[O_SORTVAL] = 1; w[O_INDEX] = 1; w[O_CANPUT] = 1; w[O_CLEAR] = 0; } }
@@ -600,6 +639,7 @@ template<class TT, class K, class V, bool byValue> struct OrdCase : public Look 
             if (R(3) == 0 && seq.size()) { size_t p = R((uint32)seq.size()); uint32 sk = seq[p].second; OP("NewIterAt %u %s", sk, back ? "backward" : "forward"); it = new IT(t->GetIteratorAt(KK(sk), flags)); expect = sk; if (!back) for (size_t i = p; i < seq.size(); i++) ahead.push_back(seq[i].first); else for (size_t i = p + 1; i-- > 0; ) ahead.push_back(seq[i].first); }
             else { OP("NewIter %s", back ? "backward" : "forward"); it = new IT(*t, flags); if (seq.size()) { expect = back ? seq.back().second : seq.front().second; if (!back) for (size_t i = 0; i < seq.size(); i++) ahead.push_back(seq[i].first); else for (size_t i = seq.size(); i-- > 0; ) ahead.push_back(seq[i].first); } }
             ts.Begin(it, back, 0, ahead, expect); }
+         else if (o >= 96) { if (ts.v.empty()) continue; ts.Transfer(maxIters + 2); }
          else { if (ts.v.empty()) continue; size_t i = R((uint32)ts.v.size()); uint32 steps = om.size() > 60 ? 1 + R((uint32)om.size() / 4) : 1 + R(3); OP("Advance iter%zu x%u", i, steps); ts.Advance(i, steps); }
          if (movable != 0) ts.NoteReorder(0);   // an operation that is allowed to move entries ran: (b)/(c) do not apply to the traversals in progress
          if (resorted) sortedExpected = true; const bool se = sortedExpected; if (disturbed || movable > 0) sortedExpected = se && !disturbed && !unsorted0;   // an operation that unsorts by documented means is judged leniently; settled below
@@ -624,19 +664,33 @@ template<class TT, class K, class V, bool byValue> struct OrdCase : public Look 
 // immutable while others hold them, and every result equals its start table with the one Put/Remove applied
 static void PoolCase()
 {
-   typedef ImmutableHashtablePool<uint32, uint32, 8> Pool; typedef Pool::ConstImmutableHashtableTypeRef Ref;
-   Pool pool; std::vector<std::pair<Ref, Ref> > held; std::vector<std::map<uint32, uint32> > models;
-   held.push_back(std::make_pair(pool.GetEmptyTable(), pool.GetEmptyTable())); models.push_back(std::map<uint32, uint32>());
-   uint32 steps = 20 + R(40);
+   typedef ImmutableHashtablePool<uint32, uint32, 8> Pool; typedef Pool::ConstImmutableHashtableTypeRef Ref; typedef std::map<uint32, uint32> PM;
+   struct Eq { static bool Same(const Ref & r, const PM & m) { const Hashtable<uint32, uint32> & h = r()->GetTable(); if (h.GetNumItems() != m.size()) return false; for (PM::const_iterator q = m.begin(); q != m.end(); ++q) { const uint32 * p = h.Get(q->first); if (!p || *p != q->second) return false; } return true; } };
+   Pool pool; std::vector<Ref> held; std::vector<PM> models;   // every holder has ONE reference; several holders may share one table object
+   held.push_back(pool.GetEmptyTable()); models.push_back(PM());
+   uint32 steps = 30 + R(60);
    for (uint32 s = 0; s < steps && !caseBad; s++) {
-      size_t i = R((uint32)held.size()); uint32 k = R(6), v = R(3); bool put = R(3) != 0; uint32 lru = R(2) ? MUSCLE_NO_LIMIT : 1 + R(4);
-      OP(put ? "PoolGetWithPut from #%zu %u=%u" : "PoolGetWithRemove from #%zu %u", i, k, v);
-      Ref r = put ? pool.GetWithPut(held[i].first, k, v, lru) : pool.GetWithRemove(held[i].first, k, lru);
-      std::map<uint32, uint32> m = models[i]; if (put) m[k] = v; else m.erase(k);
+      size_t i = R((uint32)held.size()); uint32 k = R(4), v = R(2); bool put = R(3) != 0; uint32 lru = R(3) == 0 ? MUSCLE_NO_LIMIT : R(4);
+      const void * obj = held[i](); size_t sharers = 0; for (size_t j = 0; j < held.size(); j++) if (held[j]() == obj) sharers++;
+      const bool counting = held[i].IsRefCounting(); const uint32 rc = counting ? held[i]()->GetRefCount() : 0;
+      if (sharers == 1 && rc == 1) vh::stat("pool_start_private"); else if (sharers == 1 && rc == 2) vh::stat("pool_start_held_by_one_holder_and_the_cache");
+      else if (sharers == 2 && rc == 2) { vh::stat("pool_start_shared_by_two_holders_uncached"); if (pool.Contains(held[i])) vh::stat("pool_start_shared_by_two_holders_uncached_equal_content_cached"); } else vh::stat("pool_start_public_other");
+      OP(put ? "PoolGetWithPut from #%zu %u=%u lru %u" : "PoolGetWithRemove from #%zu %u (%u) lru %u", i, k, v, lru);
+      Ref r = put ? pool.GetWithPut(held[i], k, v, lru) : pool.GetWithRemove(held[i], k, lru);
+      PM m = models[i]; if (put) m[k] = v; else m.erase(k);
       if (r() == NULL) { Fail("", "NULL reference returned"); return; }
-      if (held.size() < 10) { held.push_back(std::make_pair(r, r)); models.push_back(m); } else { size_t j = R((uint32)held.size()); held[j] = std::make_pair(r, r); models[j] = m; }
-      for (size_t j = 0; j < held.size() && !caseBad; j++) { const Hashtable<uint32, uint32> & h = held[j].first()->GetTable(); bool ok = h.GetNumItems() == models[j].size(); for (std::map<uint32, uint32>::iterator q = models[j].begin(); ok && q != models[j].end(); ++q) { const uint32 * p = h.Get(q->first); if (!p || *p != q->second) ok = false; }
-         if (!ok) Fail("", vh::fmt("held immutable table #%zu (of %zu) differs from its model after the call (%u items, model %zu)", j, held.size(), h.GetNumItems(), models[j].size())); }
+      if (!Eq::Same(r, m)) { Fail("pool|result-differs-from-start-table-with-the-change", vh::fmt("result has %u items, the start table with the change applied has %zu", r()->GetTable().GetNumItems(), m.size())); return; }
+      if (r() == obj && sharers == 1) { if (m != models[i]) vh::stat("pool_updated_in_place"); models[i] = m; }   // documented: a start table nobody else holds may be updated in place and returned
+      for (size_t j = 0; j < held.size() && !caseBad; j++) if (!Eq::Same(held[j], models[j])) Fail("pool|table-held-by-another-holder-changed", vh::fmt("the table of holder #%zu (object shared by %zu holders, reference count was %u) changed when holder #%zu called Get%s (%u items now, its model has %zu)", j, sharers, rc, i, put ? "WithPut" : "WithRemove", held[j]()->GetTable().GetNumItems(), models[j].size()));
+      switch (R(5)) {
+         case 0: held[i] = r; models[i] = m; break;                                                        // the holder moves on to the result
+         case 1: held.push_back(r); models.push_back(m); held.push_back(r); models.push_back(m); break;     // two new holders share the result
+         case 2: if (held.size() > 1) { size_t j = R((uint32)held.size()); held.erase(held.begin() + j); models.erase(models.begin() + j); } held.push_back(r); models.push_back(m); break;
+         case 3: { size_t j = R((uint32)held.size()); held.push_back(held[j]); models.push_back(models[j]); } break;   // one more holder of an existing table; the result is dropped
+         default: held.push_back(r); models.push_back(m); break;
+      }
+      while (held.size() > 10) { size_t j = R((uint32)held.size()); held.erase(held.begin() + j); models.erase(models.begin() + j); }
+      if (R(25) == 0) { if (R(2)) pool.ClearCache(); else pool.DropAllCacheEntriesContainingKey(R(4)); vh::stat("pool_cache_dropped"); }
       vh::stat("pool_steps");
    }
 }
@@ -698,7 +752,19 @@ static void Regress()
       if (bad) RFAIL("regress|exact-size", "a table of exactly %u slots, completely filled, loses entries or order", S);
       vh::stat("regress_exact_sizes");
    }
-   for (uint64_t i = 1; i <= 12; i++) vh::distinct(i);
+   vh::begin_case(12);
+   { // seeded change C09-5: copy-assignment must discard the target's private copy of a removed/moved entry (three variants)
+      opname = "iterator-assignment"; const char * key = "regress|iterator-assignment-keeps-stale-scratch-copy";
+      { H t; for (uint32 i = 1; i <= 5; i++) (void)t.Put(i, i * 10); HashtableIterator<uint32, uint32> a(t), b(t, (uint32)3, 0); (void)t.Remove(1);   // a holds the private copy of (1,10)
+        if (!a.HasData() || a.GetKey() != 1) RFAIL("regress|docex", "an iterator whose entry was removed is documented to keep a private copy until advanced");
+        a = b; uint32 want[] = {3, 4, 5}; uint32 n = 0; for (; a.HasData() && n < 3; a++, n++) if (a.GetKey() != want[n] || a.GetValue() != want[n] * 10) break; if (n != 3 || a.HasData() || !b.HasData() || b.GetKey() != 3) RFAIL(key, "Remove variant: after a = b the target yields something else than 3,4,5 (stopped after %u)", n); }
+      { Hashtable<String, uint32> t; const char * ks[] = {"alpha", "beta", "gamma", "delta"}; for (uint32 i = 0; i < 4; i++) (void)t.Put(ks[i], i); HashtableIterator<String, uint32> a(t, HTIT_FLAG_BACKWARDS), b(t, String("beta"), 0); (void)t.MoveToFront("delta");   // a (backwards, on delta) now holds a private copy
+        a = b; if (!a.HasData() || a.GetKey() != "beta" || a.IsBackwards()) RFAIL(key, "MoveToFront variant: after a = b the target presents '%s'%s", a.HasData() ? a.GetKey()() : "(no data)", a.IsBackwards() ? " and is still backwards" : ""); else { a++; if (!a.HasData() || a.GetKey() != "gamma") RFAIL(key, "MoveToFront variant: the target does not continue like the source"); } }
+      { H * t1 = new H; (void)t1->Put(7, 70); (void)t1->Put(8, 80); H t2; (void)t2.Put(1, 10); (void)t2.Put(2, 20); HashtableIterator<uint32, uint32> a(*t1), b(t2); t1->Clear(); delete t1;   // a holds the private copy of a pair of a table that no longer exists
+        a = b; uint32 n = 0; bool ok = true; for (; a.HasData() && n < 2; a++, n++) if (a.GetKey() != n + 1 || a.GetValue() != (n + 1) * 10) ok = false; if (!ok || n != 2 || a.HasData()) RFAIL(key, "Clear+destruction variant: after a = b (iterator of another table) the target does not yield 1,2"); }
+      { H t; for (uint32 i = 1; i <= 3; i++) (void)t.Put(i, i); HashtableIterator<uint32, uint32> a(t), dflt; (void)t.Remove(1); a = dflt; if (a.HasData()) RFAIL(key, "assignment from a default-constructed iterator leaves data"); HashtableIterator<uint32, uint32> c(t); (void)t.Remove(2); HashtableIterator<uint32, uint32> d(c); if (!d.HasData() || d.GetKey() != 2) RFAIL("regress|docex", "copy-construction from an iterator holding a private copy"); d++; if (!d.HasData() || d.GetKey() != 3) RFAIL("regress|docex", "copy-constructed iterator does not continue like its source"); }
+   }
+   for (uint64_t i = 1; i <= 13; i++) vh::distinct(i);
 }
 
 int main(int argc, char ** argv)
